@@ -11,6 +11,7 @@ import (
 	"github.com/pb33f/libopenapi/orderedmap"
 	yaml "go.yaml.in/yaml/v4"
 	"google.golang.org/protobuf/compiler/protogen"
+	"google.golang.org/protobuf/types/descriptorpb"
 	k8syaml "sigs.k8s.io/yaml"
 
 	"github.com/SebastienMelki/sebuf/internal/annotations"
@@ -38,6 +39,29 @@ type Generator struct {
 	doc     *v3.Document
 	schemas *orderedmap.Map[string, *base.SchemaProxy]
 	format  OutputFormat
+	// goPackageName is the Go package name of the file being documented (first segment
+	// of default method paths); empty means: derive it from the file's go_package option.
+	goPackageName string
+}
+
+// SetGoPackageName sets the Go package name protogen derived for the file whose services
+// are documented. Default method paths start with it, as in the other generators.
+func (g *Generator) SetGoPackageName(name string) {
+	g.goPackageName = name
+}
+
+// goPackageNameFor returns the Go package name for default paths of service: the one set
+// through SetGoPackageName, else the name the file's go_package option implies.
+func (g *Generator) goPackageNameFor(service *protogen.Service) string {
+	if g.goPackageName != "" {
+		return g.goPackageName
+	}
+	opts, _ := service.Desc.ParentFile().Options().(*descriptorpb.FileOptions)
+	goPackage := opts.GetGoPackage()
+	if i := strings.LastIndex(goPackage, ";"); i >= 0 {
+		return goPackage[i+1:]
+	}
+	return goPackage[strings.LastIndex(goPackage, "/")+1:]
 }
 
 // NewGenerator creates a new OpenAPI generator with the specified output format.
@@ -677,26 +701,26 @@ type methodHTTPInfo struct {
 }
 
 // extractMethodHTTPInfo extracts HTTP configuration from service and method annotations.
-func extractMethodHTTPInfo(service *protogen.Service, method *protogen.Method) methodHTTPInfo {
+func extractMethodHTTPInfo(service *protogen.Service, method *protogen.Method, goPackageName string) methodHTTPInfo {
 	servicePath := annotations.GetServiceBasePath(service)
 	methodConfig := annotations.GetMethodHTTPConfig(method)
 
 	var path, httpMethod string
 	var pathParams []string
 
-	if servicePath != "" || methodConfig != nil {
-		methodPath := ""
+	methodPath := ""
+	if methodConfig != nil {
+		methodPath = methodConfig.Path
+		// Shared annotations return UPPERCASE methods; OpenAPI requires lowercase
+		httpMethod = strings.ToLower(methodConfig.Method)
+		pathParams = methodConfig.PathParams
+	}
 
-		if methodConfig != nil {
-			methodPath = methodConfig.Path
-			// Shared annotations return UPPERCASE methods; OpenAPI requires lowercase
-			httpMethod = strings.ToLower(methodConfig.Method)
-			pathParams = methodConfig.PathParams
-		}
-
+	if methodPath != "" {
 		path = annotations.BuildHTTPPath(servicePath, methodPath)
 	} else {
-		path = fmt.Sprintf("/%s/%s", service.Desc.Name(), method.Desc.Name())
+		// No path configured: the default route the servers register and the clients call
+		path = annotations.DefaultMethodPath(goPackageName, servicePath, method.GoName)
 	}
 
 	if httpMethod == "" {
@@ -807,7 +831,7 @@ func assignOperationToPathItem(pathItem *v3.PathItem, httpMethod string, operati
 
 // processMethod converts a protobuf RPC method to an OpenAPI operation.
 func (g *Generator) processMethod(service *protogen.Service, method *protogen.Method) {
-	info := extractMethodHTTPInfo(service, method)
+	info := extractMethodHTTPInfo(service, method, g.goPackageNameFor(service))
 
 	operation := &v3.Operation{
 		OperationId: string(method.Desc.Name()),
